@@ -152,10 +152,16 @@ def build(cfg):
         docs = Set(D)
         fan = Optional(P)
 
+    class Aux(db.Entity):                       # no rule ever names it: only used to make a commit / flush fail
+        id = PrimaryKey(int)
+        k = Required(int, unique=True)
+
     db.bind('sqlite', ':memory:')
     db.generate_mapping(create_tables=True)
     env = Env()
     env.db = db
+    env.Aux = Aux
+    env.aux_next = 1
     env.entities = {'P': P, 'D': D, 'SD': SD, 'T': T}
     env.attrs = {}
     env.rule_objs = []
@@ -197,6 +203,7 @@ def build(cfg):
                     rule.exclude(x)
 
     with db_session:
+        Aux(id=1, k=1)
         people = [P(id=i + 1, name='p%d' % i) for i in range(cfg['people'])]
         tags = [T(id=k + 1, label='t%d' % k, fan=None if t['fan'] is None else people[t['fan']])
                 for k, t in enumerate(cfg['tags'])]
@@ -266,6 +273,46 @@ def _ask(env, cfg, ui, fn, target):
 FNS = M.PERMS + sorted(M.CAN)
 
 
+class _BodyError(Exception):
+    pass
+
+
+def _session(env, body, end=None):
+    """run body() inside one db_session and leave the session the way `end` says:
+    normal / None  -- the block is left normally (commit);
+    commit_error   -- an object with a duplicate unique key is pending, so the commit made on leaving the block fails;
+    body_error     -- an exception is raised inside the block (with a pending insert): rollback path;
+    flush_error    -- flush() of a duplicate unique key fails inside the block: rollback path;
+    rollback_call  -- rollback() is called inside the block, which is then left normally."""
+    from pony.orm import db_session, rollback, flush
+    from pony.orm import core
+    commit_errors = (core.TransactionIntegrityError, core.IntegrityError, core.CommitException)
+    try:
+        with db_session:
+            body()
+            if end in ('commit_error', 'flush_error'):
+                env.aux_next += 1
+                env.Aux(id=env.aux_next, k=1)            # Aux[1] (k=1) is in the database but not loaded here
+                if end == 'flush_error':
+                    flush()
+            elif end == 'body_error':
+                env.aux_next += 1
+                env.Aux(id=env.aux_next, k=env.aux_next)
+                raise _BodyError()
+            elif end == 'rollback_call':
+                env.aux_next += 1
+                env.Aux(id=env.aux_next, k=env.aux_next)
+                rollback()
+    except _BodyError:
+        return
+    except commit_errors:
+        if end not in ('commit_error', 'flush_error'):
+            raise
+        return
+    if end in ('commit_error', 'flush_error', 'body_error'):
+        raise AssertionError('harness: a db_session meant to end with %s ended normally' % end)
+
+
 def _describe(ref, cfg, ui, target):
     kind, name = target
     s = 'user#%d %r groups=%s' % (ui, cfg['users'][ui]['kind'], sorted(ref.groups(ui)))
@@ -277,36 +324,39 @@ def _describe(ref, cfg, ui, target):
 
 def evaluate(cfg, report, count=None):
     """run the whole procedure for one configuration.  report(focus, message) is called for every mismatch;
-    count(key, nontrivial, classes, sample) for every first-pass decision."""
-    from pony.orm import db_session, set_current_user
-    from pony.orm import core
+    count(key, nontrivial, classes, sample) for every first-pass decision of every epoch."""
+    from pony.orm import set_current_user
     import json
+    from vlib.runner import chash
     cfg = M.normalise(cfg)
-    ref = M.Ref(cfg)
     env = build(cfg)
     try:
         targets = M.targets(cfg)
         decisions = [(ui, fn, t) for ui in range(len(cfg['users'])) for t in targets for fn in FNS]
         n = len(decisions)
-        first = {}
+        rules_json = json.dumps(cfg['rules'], sort_keys=True)
 
-        def judge(k, got, pass_no):
-            ui, fn, t = decisions[k]
-            focus = {'kind': 'decision', 'user': ui, 'fn': fn, 'target': t, 'pass': pass_no, 'got': got}
-            if k in first and first[k] != got:
-                report(focus, '%s(%s, %s) answered %r in pass %d but %r when first asked (same rules, same tables)'
-                       % (fn, _describe(ref, cfg, ui, t), t[1], got, pass_no, first[k]))
-                return
-            lo, up = ref.bounds(ui, fn, t)
-            rel = t[0] == 'A' and M.ATTRS[t[1]][1] is not None
-            if got and not up:
-                why = 'no rule grants the attribute or its reverse %s' % M.ATTRS[t[1]][1] if rel else 'no rule grants it'
-                report(focus, '%s(%s, %s) is True but %s under the declared rules %s'
-                       % (fn, _describe(ref, cfg, ui, t), t[1], why, json.dumps(cfg['rules'], sort_keys=True)))
-            elif lo and not got:
-                report(focus, '%s(%s, %s) is False but the declared rules grant it%s: %s'
-                       % (fn, _describe(ref, cfg, ui, t), t[1], ' on both sides of the relationship' if rel else '',
-                          json.dumps(cfg['rules'], sort_keys=True)))
+        def make_judge(ref, ecfg, first, epoch, history):
+            def judge(k, got, pass_no):
+                ui, fn, t = decisions[k]
+                focus = {'kind': 'decision', 'user': ui, 'fn': fn, 'target': t, 'pass': pass_no, 'got': got}
+                if epoch:
+                    focus['epoch'] = epoch
+                if k in first and first[k] != got:
+                    report(focus, '%s(%s, %s) answered %r in pass %d but %r when first asked (same rules, same tables)'
+                           % (fn, _describe(ref, ecfg, ui, t), t[1], got, pass_no, first[k]))
+                    return
+                lo, up = ref.bounds(ui, fn, t)
+                rel = t[0] == 'A' and M.ATTRS[t[1]][1] is not None
+                if got and not up:
+                    why = 'no rule grants the attribute or its reverse %s' % M.ATTRS[t[1]][1] if rel else 'no rule grants it'
+                    report(focus, '%s%s(%s, %s) is True but %s under the declared rules %s'
+                           % (history, fn, _describe(ref, ecfg, ui, t), t[1], why, rules_json))
+                elif lo and not got:
+                    report(focus, '%s%s(%s, %s) is False but the declared rules grant it%s: %s'
+                           % (history, fn, _describe(ref, ecfg, ui, t), t[1],
+                              ' on both sides of the relationship' if rel else '', rules_json))
+            return judge
 
         def order(stride, offset):
             stride = stride % n or 1
@@ -314,56 +364,102 @@ def evaluate(cfg, report, count=None):
                 stride += 1
             return [(offset + i * stride) % n for i in range(n)]
 
-        cfg_hash = None
-        with db_session:
+        def tables_hash(ecfg):
+            return chash([cfg['rules'], ecfg['users'], ecfg['roles1'], ecfg['roles2'], ecfg['labels1'],
+                          ecfg['labels2'], cfg['docs'], cfg['tags'], cfg['people']])
+
+        def count_decision(ref, ecfg, h, k, got, extra_classes=()):
+            ui, fn, t = decisions[k]
+            nt, classes = ref.classify(ui, fn, t)
+            sample = None
+            if nt and k % 37 == 5:
+                sample = {'rules': cfg['rules'], 'user': ecfg['users'][ui], 'groups': sorted(ref.groups(ui)),
+                          'permission': fn, 'target': t, 'pony': got, 'reference_bounds': list(ref.bounds(ui, fn, t))}
+                if t[0] == 'O':
+                    sample['roles'] = sorted(ref.roles(ui, t[1]))
+                    sample['labels'] = sorted(ref.labels(t[1]))
+                if extra_classes:
+                    sample['history'] = list(extra_classes)
+            count([h, ui, fn, t], nt, list(classes) + list(extra_classes), sample)
+
+        epochs = cfg['epochs']
+        next_end = lambda e: epochs[e]['end'] if e < len(epochs) else None     # how the last session of epoch e ends
+
+        # ---- epoch 0: the tables as declared -------------------------------------------------------------------
+        ref = M.Ref(cfg)
+        first = {}
+        judge = make_judge(ref, cfg, first, 0, '')
+        h0 = tables_hash(cfg) if count is not None else None
+
+        def session_a():
             for k in range(n):                                         # pass 1: canonical order
                 ui, fn, t = decisions[k]
                 got = _ask(env, cfg, ui, fn, t)
                 judge(k, got, 1)
                 first[k] = got
                 if count is not None and fn in M.PERMS:
-                    if cfg_hash is None:
-                        from vlib.runner import chash
-                        cfg_hash = chash([cfg['rules'], cfg['users'], cfg['roles1'], cfg['roles2'], cfg['labels1'],
-                                          cfg['labels2'], cfg['docs'], cfg['tags'], cfg['people']])
-                    nt, classes = ref.classify(ui, fn, t)
-                    sample = None
-                    if nt and k % 37 == 5:
-                        sample = {'rules': cfg['rules'], 'user': cfg['users'][ui], 'groups': sorted(ref.groups(ui)),
-                                  'permission': fn, 'target': t, 'pony': got, 'reference_bounds': list(ref.bounds(ui, fn, t))}
-                        if t[0] == 'O':
-                            sample['roles'] = sorted(ref.roles(ui, t[1]))
-                            sample['labels'] = sorted(ref.labels(t[1]))
-                    count([cfg_hash, ui, fn, t], nt, classes, sample)
-            _to_json_checks(env, cfg, ref, report, count)              # interleaved: to_json fills the same caches
+                    count_decision(ref, cfg, h0, k, got)
+            _to_json_checks(env, cfg, ref, report, count, 0)           # interleaved: to_json fills the same caches
             for k in order(cfg['order']['stride'], cfg['order']['offset']):   # pass 2: re-ordered, same session
                 ui, fn, t = decisions[k]
                 judge(k, _ask(env, cfg, ui, fn, t), 2)
-        with db_session:
+        _session(env, session_a)
+
+        def session_b():
             for k in order(cfg['order']['stride'] * 7 + 3, cfg['order']['offset'] + 1):   # pass 3: new session
                 ui, fn, t = decisions[k]
                 judge(k, _ask(env, cfg, ui, fn, t), 3)
+        _session(env, session_b)
+
         answers = []
         for reverse in (False, True):                                 # pass 4/5: rule iteration order chosen by the harness,
-            with db_session:                                          # one fresh session (fresh permission cache) each
+            def session_order():                                      # one fresh session (fresh permission cache) each
                 _set_rule_order(env, reverse)
                 answers.append({k: _ask(env, cfg, *decisions[k]) for k in range(n) if decisions[k][1] in M.PERMS})
-        if True:
-            for k in sorted(answers[0]):
-                a, b = answers[0][k], answers[1][k]
-                if a != b or a != first[k]:
+            _session(env, session_order, next_end(0) if reverse else None)
+        for k in sorted(answers[0]):
+            a, b = answers[0][k], answers[1][k]
+            if a != b or a != first[k]:
+                ui, fn, t = decisions[k]
+                report({'kind': 'rule_order', 'user': ui, 'fn': fn, 'target': t, 'got': [first[k], a, b]},
+                       '%s(%s, %s) depends on the order in which Pony iterates its set of rules: %r as first asked, %r '
+                       'with the rules met in declaration order, %r in reverse declaration order; declared rules %s'
+                       % (fn, _describe(ref, cfg, ui, t), t[1], first[k], a, b, rules_json))
+
+        # ---- later epochs: the previous session ended as epochs[e-1]['end'] says, then the tables changed --------------
+        prev_ref = ref
+        for e in range(1, len(epochs) + 1):
+            ecfg = M.effective(cfg, e)
+            eref = M.Ref(ecfg)
+            CUR['cfg'] = ecfg                                         # the getters now serve the new tables
+            ended = epochs[e - 1]['end']
+            history = ('[epoch %d: the previous db_session of this thread asked the same questions and ended with %s; '
+                       'the getters then started to return new groups / roles / labels] ' % (e, ended))
+            efirst = {}
+            ejudge = make_judge(eref, ecfg, efirst, e, history)
+            eh = tables_hash(ecfg) if count is not None else None
+
+            def session_e():
+                for k in order(cfg['order']['stride'] + e, cfg['order']['offset'] + e):
                     ui, fn, t = decisions[k]
-                    report({'kind': 'rule_order', 'user': ui, 'fn': fn, 'target': t, 'got': [first[k], a, b]},
-                           '%s(%s, %s) depends on the order in which Pony iterates its set of rules: %r as first asked, %r '
-                           'with the rules met in declaration order, %r in reverse declaration order; declared rules %s'
-                           % (fn, _describe(ref, cfg, ui, t), t[1], first[k], a, b, json.dumps(cfg['rules'], sort_keys=True)))
+                    got = _ask(env, ecfg, ui, fn, t)
+                    ejudge(k, got, 1)
+                    efirst[k] = got
+                    if count is not None and fn in M.PERMS:
+                        extra = ['history:after_' + ended]
+                        if eref.bounds(ui, fn, t) != prev_ref.bounds(ui, fn, t):
+                            extra.append('history:answer_changed_after_' + ended)
+                        count_decision(eref, ecfg, eh, k, got, extra)
+                _to_json_checks(env, ecfg, eref, report, count, e)
+            _session(env, session_e, next_end(e))
+            prev_ref = eref
     finally:
         set_current_user(None)
         CUR['cfg'] = None
         env.db.disconnect()
 
 
-def _to_json_checks(env, cfg, ref, report, count):
+def _to_json_checks(env, cfg, ref, report, count, epoch=0):
     import json
     from pony.orm import set_current_user
     from pony.orm.core import PermissionError as PonyPermissionError
@@ -376,6 +472,8 @@ def _to_json_checks(env, cfg, ref, report, count):
         hidden = [o for o in closure if not ref.bounds(ui, 'can_view', ['O', o])[1]]
         set_current_user(_user(env, cfg, ui))
         base = {'kind': 'to_json', 'op': jn, 'user': ui, 'fn': 'can_view'}
+        if epoch:
+            base['epoch'] = epoch
         try:
             try:
                 text = env.db.to_json({'items': [_target(env, ['O', o]) for o in data]},
@@ -514,6 +612,25 @@ def configs():
         cfg['json'] = draw(st.lists(st.fixed_dictionaries({
             'user': st.integers(0, 2), 'data': st.lists(st.integers(0, 6), min_size=1, max_size=3),
             'include': subset(M.REL_ATTRS, 0, 3), 'with_schema': st.booleans()}), min_size=1, max_size=2))
+        # later epochs: how the previous db_session ends, and the tables the getters serve from then on
+        epochs = []
+        for _ in range(draw(st.integers(0, 2))):
+            ep = {'end': draw(st.sampled_from(M.END_MODES + ['commit_error'])),
+                  'g': [[draw(names_shape(M.GROUPS, 3)), draw(names_shape(M.GROUPS, 2))] for _u in cfg['users']],
+                  'roles1': {}, 'labels1': {}}
+            for ui, u in enumerate(cfg['users']):
+                if u['kind'] == 'none':
+                    continue
+                for o in objs:
+                    v = draw(names_shape(M.ROLES, 2))
+                    if v is not None:
+                        ep['roles1']['%d|%s' % (ui, o)] = v
+            for o in objs:
+                v = draw(names_shape(M.LABELS, 2))
+                if v is not None:
+                    ep['labels1'][o] = v
+            epochs.append(ep)
+        cfg['epochs'] = epochs
         return cfg
     return cfgs()
 
@@ -541,7 +658,7 @@ def replay(case):
     if not found:
         return None
     want = case.get('focus') or {}
-    ident = lambda f: (f.get('kind'), f.get('user'), f.get('fn'), f.get('target'))
+    ident = lambda f: (f.get('kind'), f.get('user'), f.get('fn'), f.get('target'), f.get('epoch', 0))
     for focus, message in found:
         if ident(focus) == ident(want):
             return message
@@ -563,7 +680,7 @@ def _explained_by(case, variant, level):
     if level == 'A' and M.ATTRS[target[1]][1] is None:
         return False
     cfg = M.normalise(dict(case['cfg']))
-    ref = M.Ref(cfg)
+    ref = M.Ref(M.effective(cfg, focus.get('epoch', 0)))
     ui, fn = focus['user'], focus['fn']
     if ref.bounds(ui, fn, target)[1]:
         return False                      # not a wrong grant at all (e.g. an unstable answer): never excluded
@@ -595,7 +712,7 @@ def _early_return_depends_on_rule_order(case, message):
     entity, rev, _ = M.ATTRS[target[1]]
     if rev is None:
         return False
-    ref = M.Ref(M.normalise(dict(case['cfg'])))
+    ref = M.Ref(M.effective(M.normalise(dict(case['cfg'])), focus.get('epoch', 0)))
     ui, fn = focus['user'], focus['fn']
     if ref.registered(M.ATTRS[rev][0], fn):
         return False                      # the reverse entity has rules: the early return cannot fire
